@@ -17,6 +17,24 @@ def functionEvaluateOut : String :=
 def functionNewThreadOut : String :=
   "(block (call (. util SetStdio) v1 (. v0 out) (. v0 out)))"
 
+def setStdioArgs : List String :=
+  ["f.out", "f.out"]
+
+def utilStdioBody : String :=
+  "(block (:= (v1 v2) ((assert (call (. v0 Local) \"stdout\") (. io Writer)))) (if _ (u! v2) (block (= (v1) ((. os Stdout)))) _) (:= (v3 v2) ((assert (call (. v0 Local) \"stderr\") (. io Writer)))) (if _ (u! v2) (block (= (v3) ((. os Stderr)))) _) (return v1 v3))"
+
+def osExecStdio : String :=
+  "(block (= ((. v6 Stdout) (. v6 Stderr)) ((call (. util Stdio) v0))))"
+
+def osOutputStdio : String :=
+  "(block (var (v8) (. strings Builder) ()) (= ((. v6 Stdout)) ((u& v8))) (= (_ (. v6 Stderr)) ((call (. util Stdio) v0))) (return (call (. starlark String) (call (. v8 String))) nil))"
+
+def shExecStdio : String :=
+  "(block (:= (v9 v10) ((call (. util Stdio) v0))) (= (v7) ((call append v7 (call (. interp StdIO) nil v9 v10)))) (call (. fmt Fprintln) v9 v2))"
+
+def shOutputStdio : String :=
+  "(block (var (v9) (. strings Builder) ()) (:= (v10 v11) ((call (. util Stdio) v0))) (if _ v5 (block (= (v11) ((. io Discard)))) _) (= (v7) ((call append v7 (call (. interp StdIO) nil (u& v9) v11)))) (call (. fmt Fprintln) v10 v2) (:= (v12) ((call (. starlark String) (call (. v9 String))))))"
+
 def evaluateSkeleton : String :=
   String.join [
     "(block (range v9 v10 (call (. v1 EvaluateTargets) v6 ...) (block (if _ (!= (. v10 Error) nil) (block (typeswitch _ _ (case (UnknownTargetError) (call (. (. v2 events) TargetFailed) v3 (call (. fmt Errorf) \"missing dependency: %w\" (. v10 Error)))) (case ((. runner CyclicDependencyError)) (call (. (. v2 events) TargetFailed) v3 v11))) (return (call (. fmt Errorf) \"dependency %v failed\" (index v6 v9)))) _))) (:= (v15 v16 v17 v11) ((call (. (. v0 target) upToDate)))) (if _ (!= v11 nil) (block (call (. (. v2 events) TargetFailed) v3 v11) (return v11)) _) (if _ (&& (&& (&& (u! (. v2 always)) v5) v15) (u! (. v4 Rerun))) (block (call (. (. v2 events) TargetUpToDate) v3) (return nil)) _) (switch _ _ (case ((u! v15))) (case ((. v2 always))) (case ((u! v5))) (case ((. v4 Rerun)))) (call (. (. v2 even",
